@@ -239,3 +239,39 @@ Theorem C01_demo_program : map parse_src demo_text = map Some demo_src
         exists r1 m r', vm_steps O r [[32; 50; 32]; [88]; [10]] r1 /\ exec_loop_x O m false r1 = (r', Ok (Some EvStopped))).
 Proof. exact (conj demo_is_parsed (conj demo_meets_premises demo_vm_prints)). Qed.
 Print Assumptions C01_demo_program.
+
+(* ---- FOR and NEXT: the emitted sequences and what the FOR sequence does (Proofs/StmtShape.v) ---- *)
+From BL Require Import Proofs.StmtShape.
+
+(* FOR v = e1 TO e2 STEP e3 compiles to: e1, store into v, e2, e3, the name of v, the loop address (0 until the linker
+   patches it): the order in which the manual says they are evaluated *)
+Theorem C01_for_statement_code : forall c vc v e1 e2 e3,
+  pure e1 = true -> pure e2 = true -> pure e3 = true -> builtin_arity (ident_str v) = None ->
+  let code := postfix e1 ++ [OpPop (ident_str v)] ++ postfix e2 ++ postfix e3 ++ [OpLiteral (VStr (ident_str v)); OpLiteral (VNext 0)] in
+  lenN code <= MAX_POOL ->
+  let s := SFor c (VUnary vc v) e1 e2 e3 in
+  l_ops (snd (fst (cg_stmt s))) = code /\ l_data (snd (fst (cg_stmt s))) = [] /\ snd (cg_stmt s) = [].
+Proof. exact for_statement_code. Qed.
+Print Assumptions C01_for_statement_code.
+
+(* on the VM: the limit and the step are evaluated in the store in which the loop variable already holds the start value
+   (FOR I=1 TO I+2 runs to 3 whatever I was), and the frame limit / step / name / loop address is what is left on the stack *)
+Theorem C01_for_assigns_before_limit_and_step : forall O h i e1 e2 e3 a r x vs y z,
+  pure e1 = true -> pure e2 = true -> pure e3 = true ->
+  r_slen r + lenN (postfix e1) + lenN (postfix e2) + lenN (postfix e3) + 4 <= MAX_POOL ->
+  eval_pure O (r_vars r) e1 = Ok x -> var_store (r_vars r) (ident_str i) x = Ok vs ->
+  eval_pure O vs e2 = Ok y -> eval_pure O vs e3 = Ok z ->
+  run_ops O h (for_code i e1 e2 e3 a) r
+  = (set_stack_len (set_vars r vs) (VNext a :: VStr (ident_str i) :: z :: y :: r_stack r) (r_slen r + 4), Ok tt).
+Proof. exact run_for. Qed.
+Print Assumptions C01_for_assigns_before_limit_and_step.
+
+(* NEXT with a list closes the loops in the order written: one NEXT instruction per name, first name first *)
+Theorem C01_next_statement_code : forall c (vs : list (col * ident)),
+  (forall ci, In ci vs -> builtin_arity (ident_str (snd ci)) = None) ->
+  let code := map (fun ci => OpNext (ident_str (snd ci))) vs in
+  lenN code <= MAX_POOL ->
+  let s := SNext c (map (fun ci => VUnary (fst ci) (snd ci)) vs) in
+  l_ops (snd (fst (cg_stmt s))) = code /\ snd (cg_stmt s) = [].
+Proof. exact next_statement_code. Qed.
+Print Assumptions C01_next_statement_code.
